@@ -151,7 +151,7 @@ theorem openAndOverwrite_meaning (o : Oracle W) (w : W) (t : FdTable) (r : Redir
       subst hs
       exact ⟨w1, w2, args, ofd, hres,
         overwrite_target_entry _ _ tfd fd _ rfl hget rfl hok, hargs⟩
-    | fileCs op path =>
+    | fileCs op path st =>
       simp only
       refine ⟨?_, fun _ _ h => by cases h⟩
       simp only [prepare] at hp
@@ -225,7 +225,7 @@ theorem Meaning.of_same_source (o : Oracle W) (t t' : FdTable) (r : Redir) (a : 
     | malformed => exact h
     | negOne => exact h
   | file op path => exact h
-  | fileCs op path => exact h
+  | fileCs op path st => exact h
   | hereDoc c => exact h
   | unsupported => exact h
   | expErr => exact h
